@@ -442,7 +442,33 @@ fn extra_fields_preserved() {
     report("extra-fields-preserved", ok, json!({"built": format!("{st:?}").chars().take(400).collect::<String>(), "expected": "fuel = 1000, label = \"fresh\" (the struct's own Default), lim = 9"}));
 }
 
+/// "has the maximum size last set for it (globally or individually)" over the whole range of
+/// sizes, far beyond anything that could be filled: 0, 1, around 2^31 / 2^32 / 2^63 and usize::MAX.
+fn extreme_sizes() {
+    let sizes = [0usize, 1, 2, u32::MAX as usize - 1, u32::MAX as usize, u32::MAX as usize + 1, (1usize << 32) + 1, i64::MAX as usize - 1, i64::MAX as usize, i64::MAX as usize + 1, usize::MAX / 2 + 2, usize::MAX - 1, usize::MAX];
+    let mut cases = 0usize;
+    for &s in &sizes {
+        cases += 1;
+        let st = PushState::builder().with_max_stack_size(s).with_no_program().with_instruction_step_limit(1).build();
+        let global = [st.stack::<i64>().max_stack_size(), st.stack::<OrderedFloat<f64>>().max_stack_size(), st.stack::<bool>().max_stack_size(), st.stack::<PushProgram>().max_stack_size()];
+        let st = PushState::builder().with_max_stack_size(3).with_int_max_size(s).with_bool_max_size(s).with_no_program().with_instruction_step_limit(1).build();
+        let individual = [st.stack::<i64>().max_stack_size(), st.stack::<OrderedFloat<f64>>().max_stack_size(), st.stack::<bool>().max_stack_size(), st.stack::<PushProgram>().max_stack_size()];
+        let st = PushState::builder().with_max_stack_size(s).with_float_max_size(7).with_max_stack_size(5).with_float_max_size(s).with_float_max_size(2).with_int_max_size(s).with_no_program().with_instruction_step_limit(1).build();
+        let last_wins = [st.stack::<i64>().max_stack_size(), st.stack::<OrderedFloat<f64>>().max_stack_size(), st.stack::<bool>().max_stack_size(), st.stack::<PushProgram>().max_stack_size()];
+        let tw = Twin::builder().with_max_stack_size(4).with_left_max_size(s).with_no_program().with_instruction_step_limit(0).build();
+        let twin = [tw.a.max_stack_size(), tw.b.max_stack_size(), tw.code.max_stack_size()];
+        if global != [s; 4] || individual != [s, 3, s, 3] || last_wins != [s, 2, 5, 5] || twin != [s, 4, 4] {
+            let show = |v: &[usize]| v.iter().map(|x| x.to_string()).collect::<Vec<_>>();
+            report("extreme-sizes", false, json!({"size": s.to_string(), "global [int, float, bool, exec]": show(&global), "int and bool individually after a global 3": show(&individual), "expected": show(&[s, 3, s, 3]),
+                "global s, float 7, global 5, float s, float 2, int s": show(&last_wins), "expected_last_wins": show(&[s, 2, 5, 5]), "twin [left, b, code] with left set individually after a global 4": show(&twin)}));
+            return;
+        }
+    }
+    report("extreme-sizes", true, json!({"sizes": cases}));
+}
+
 pub fn static_checks() {
+    extreme_sizes();
     crossed_builder_names();
     extra_fields_preserved();
     inputs_any_order();
